@@ -168,20 +168,29 @@ pub fn c16(ctx: &mut Ctx) -> Search {
 
 use crate::so;
 
+// A refused lock request is a property of the environment (RLIMIT_MEMLOCK), not of container independence: it is
+// raised as a harness error (status "error"), never as a finding.
+fn granted<T, E: std::fmt::Display>(r: Result<T, E>, what: &str) -> Result<T, Fail> {
+    match r {
+        Ok(v) => Ok(v),
+        Err(e) => panic!("{} {} refused by the OS: {}", HARNESS, what, e),
+    }
+}
+
 fn lk<const N: usize>(b: &[u8; N]) -> Result<Locked<HeapByteArray<N>>, Fail> {
-    must_ok(HeapByteArray::<N>::from_slice_into_locked(b), "HeapByteArray::from_slice_into_locked")
+    granted(HeapByteArray::<N>::from_slice_into_locked(b), "HeapByteArray::from_slice_into_locked")
 }
 
 fn ro<const N: usize>(b: &[u8; N]) -> Result<LockedRO<HeapByteArray<N>>, Fail> {
-    must_ok(HeapByteArray::<N>::from_slice_into_readonly_locked(b), "HeapByteArray::from_slice_into_readonly_locked")
+    granted(HeapByteArray::<N>::from_slice_into_readonly_locked(b), "HeapByteArray::from_slice_into_readonly_locked")
 }
 
 fn lkb(b: &[u8]) -> Result<Locked<HeapBytes>, Fail> {
-    must_ok(HeapBytes::from_slice_into_locked(b), "HeapBytes::from_slice_into_locked")
+    granted(HeapBytes::from_slice_into_locked(b), "HeapBytes::from_slice_into_locked")
 }
 
 fn rob(b: &[u8]) -> Result<LockedRO<HeapBytes>, Fail> {
-    must_ok(HeapBytes::from_slice_into_readonly_locked(b), "HeapBytes::from_slice_into_readonly_locked")
+    granted(HeapBytes::from_slice_into_readonly_locked(b), "HeapBytes::from_slice_into_readonly_locked")
 }
 
 fn clones_of_array<const N: usize>(b: &[u8]) -> Outcome {
